@@ -336,6 +336,8 @@ func plans() map[string]*propertyPlan {
 	c12.minObserved["instantiating_module_queries"] = 1000
 	c09 := treePlan("the resolved type of every leaf (base kind, units, default, accumulated patterns) is compared with the reference binder; plus derivation chains of 3 to 13000 typedefs (30000 in the thorough tier) on string, int32, uint8 and decimal64, declared base first, most derived first or shuffled, in one module or alternating between two that import each other: the leaf at the end carries the base kind, the nearest units and default and every pattern of the chain", 30000, 400000)
 	c09.quick = append(c09.quick, spec{family: "longchains", cases: 96, params: map[string]string{"case_cpu_s": "120"}, cpuS: 900, asKB: 8 << 20, wallS: 1200})
+	c09.quick = append(c09.quick, spec{family: "unions", cases: 6000, cpuS: 600, asKB: 8 << 20, wallS: 900})
+	c09.thorough = append(c09.thorough, spec{family: "unions", cases: 200000, cpuS: 3600, asKB: 8 << 20, wallS: 5400})
 	c09.thorough = append(c09.thorough, spec{family: "longchains", cases: 960, params: map[string]string{"case_cpu_s": "300"}, cpuS: 7200, asKB: 8 << 20, wallS: 9000})
 	c09.evaluations = "sets,chains"
 	c09.minObserved["leaves_checked"] = 100
@@ -408,8 +410,8 @@ func plans() map[string]*propertyPlan {
 			assumptions: []string{"number-literal leniency (hex, octal, underscore, leading plus, '1.', '.5') is not judged: C15 scopes literal forms and goyang documents base-0 parsing"},
 			minObserved: map[string]int64{"restrictions": 100000, "chains_compared": 5000},
 			nontrivial:  "nontrivial", evaluations: "restrictions,chains,malformed,child_restrictions,decimal_restrictions",
-			quick:    []spec{{family: "grid", shards: 32, cpuS: 900, asKB: 8 << 20, wallS: 1200}, {family: "chains", cases: 150000, cpuS: 900, asKB: 8 << 20, wallS: 1200}, {family: "malformed", shards: 4, cpuS: 600, asKB: 8 << 20, wallS: 900}, {family: "child", cases: 1000000, cpuS: 900, asKB: 8 << 20, wallS: 1200}, {family: "decgrid", shards: 16, cpuS: 900, asKB: 8 << 20, wallS: 1200}},
-			thorough: []spec{{family: "grid", shards: 64, cpuS: 7200, asKB: 8 << 20, wallS: 9000}, {family: "chains", cases: 1000000, cpuS: 7200, asKB: 8 << 20, wallS: 9000}, {family: "malformed", shards: 4, cpuS: 600, asKB: 8 << 20, wallS: 900}, {family: "child", cases: 20000000, cpuS: 7200, asKB: 8 << 20, wallS: 9000}, {family: "decgrid", shards: 16, cpuS: 900, asKB: 8 << 20, wallS: 1200}},
+			quick:    []spec{{family: "grid", shards: 32, cpuS: 900, asKB: 8 << 20, wallS: 1200}, {family: "chains", cases: 150000, cpuS: 900, asKB: 8 << 20, wallS: 1200}, {family: "malformed", shards: 4, cpuS: 600, asKB: 8 << 20, wallS: 900}, {family: "child", cases: 1000000, cpuS: 900, asKB: 8 << 20, wallS: 1200}, {family: "decgrid", shards: 16, cpuS: 900, asKB: 8 << 20, wallS: 1200}, {family: "decimals", cases: 8000, cpuS: 600, asKB: 8 << 20, wallS: 900}},
+			thorough: []spec{{family: "decimals", cases: 300000, cpuS: 3600, asKB: 8 << 20, wallS: 5400}, {family: "grid", shards: 64, cpuS: 7200, asKB: 8 << 20, wallS: 9000}, {family: "chains", cases: 1000000, cpuS: 7200, asKB: 8 << 20, wallS: 9000}, {family: "malformed", shards: 4, cpuS: 600, asKB: 8 << 20, wallS: 900}, {family: "child", cases: 20000000, cpuS: 7200, asKB: 8 << 20, wallS: 9000}, {family: "decgrid", shards: 16, cpuS: 900, asKB: 8 << 20, wallS: 1200}},
 		},
 		"C05": {
 			level:       "exploration",
@@ -417,7 +419,7 @@ func plans() map[string]*propertyPlan {
 			assumptions: []string{"Go randomises every range over a map; repetition samples iteration orders (the rarest alternative order of a 2-entry map has p=1/8 per iteration), it does not enumerate them", "two texts with the same (name, revision) are not generated here: their rejection is C13's subject and is order-dependent by construction"},
 			minObserved: map[string]int64{"executions": 50000, "error_outcomes": 20},
 			nontrivial:  "nontrivial", evaluations: "executions",
-			quick:    []spec{{family: "conflict", cases: 330, cpuS: 900, asKB: 8 << 20, wallS: 1200}, {family: "generated", cases: 320, cpuS: 900, asKB: 8 << 20, wallS: 1200}, {family: "cli", cases: 48, cpuS: 900, wallS: 1200}},
+			quick: []spec{{family: "conflict", cases: 345, cpuS: 900, asKB: 8 << 20, wallS: 1200}, {family: "generated", cases: 320, cpuS: 900, asKB: 8 << 20, wallS: 1200}, {family: "cli", cases: 48, cpuS: 900, wallS: 1200}},
 			// (a thorough case is 128 x 24 executions of one set, a third of them with extra processing runs: the budget per case is raised accordingly)
 			thorough: []spec{{family: "conflict", cases: 10000, params: map[string]string{"case_cpu_s": "600"}, cpuS: 7200, asKB: 8 << 20, wallS: 9000}, {family: "generated", cases: 10000, params: map[string]string{"case_cpu_s": "600"}, cpuS: 7200, asKB: 8 << 20, wallS: 9000}, {family: "cli", cases: 400, cpuS: 7200, wallS: 9000}},
 		},
